@@ -296,9 +296,13 @@ def element_dependent_exits(loop):
                 if isinstance(st, (ast.Assign, ast.AugAssign, ast.AnnAssign)):
                     tg = st.targets if isinstance(st, ast.Assign) else [st.target]
                     if under or (st.value is not None and reads(st.value)):
+                        # (an accumulator carried round the loop -- `allocations, free = self._place(task, allocations, free)`,
+                        #  `n += 1` -- is updated FROM the task but is not a property OF it: a self-update does not taint)
+                        own = {y.id for y in ast.walk(st.value) if isinstance(y, ast.Name)} if st.value is not None else set()
                         for t in tg:
                             for x in ast.walk(t):
-                                if isinstance(x, ast.Name) and isinstance(x.ctx, ast.Store):
+                                if isinstance(x, ast.Name) and isinstance(x.ctx, ast.Store) and x.id not in own \
+                                        and not isinstance(st, ast.AugAssign):
                                     tainted.add(x.id)
                 elif isinstance(st, (ast.For, ast.AsyncFor)):
                     if under or reads(st.iter):
